@@ -34,8 +34,8 @@ type Type struct {
 }
 
 type Dflt struct {
-	Kind string `json:"kind"` // null quoted now
-	S    string `json:"s,omitempty"`
+	Kind string `json:"kind"`        // null quoted now expr bit hex
+	S    string `json:"s,omitempty"` // quoted: value; expr: expression text as printed; bit: binary digits; hex: upper-case hex digits
 	P    int    `json:"p,omitempty"`
 	Raw  string `json:"raw,omitempty"` // how the generator writes it in SQL (may differ from S, e.g. unquoted number)
 }
@@ -45,9 +45,24 @@ type Col struct {
 	Ty      Type   `json:"ty"`
 	Null    bool   `json:"null"`
 	Auto    bool   `json:"auto,omitempty"`
+	Gen     *Gen   `json:"gen,omitempty"`
 	Def     *Dflt  `json:"def,omitempty"`
 	OnUpd   *int   `json:"onupd,omitempty"`
 	Comment string `json:"comment,omitempty"`
+}
+
+// Gen: GENERATED ALWAYS AS (Expr) [STORED]; Expr is the text SHOW CREATE prints inside the parentheses, SQL how it is written
+type Gen struct {
+	Expr   string `json:"expr"`
+	SQL    string `json:"sql"`
+	Stored bool   `json:"stored"`
+}
+
+type Check struct {
+	Name     string `json:"name"`
+	Expr     string `json:"expr"` // as printed inside CHECK (...)
+	SQL      string `json:"sql"`
+	Enforced bool   `json:"enforced"`
 }
 
 type ICol struct {
@@ -77,6 +92,8 @@ type Table struct {
 	PK      []string `json:"pk,omitempty"`
 	Idx     []Index  `json:"idx,omitempty"`
 	FKs     []FK     `json:"fks,omitempty"`
+	Checks  []Check  `json:"checks,omitempty"`
+	Temp    bool     `json:"temp,omitempty"` // never generated: the memory database rejects TEMPORARY tables
 	AutoInc string   `json:"autoinc,omitempty"`
 	Coll    string   `json:"coll"`
 	Comment string   `json:"comment,omitempty"`
@@ -92,6 +109,8 @@ type caseT struct {
 	Col     int      `json:"col,omitempty"` // result column holding the statement text
 	Probes  []string `json:"probes,omitempty"`
 	Tag     string   `json:"tag,omitempty"`
+	ObjName string   `json:"objname,omitempty"` // view / trigger / procedure name
+	ObjText string   `json:"objtext,omitempty"` // view: the text after AS
 	NoModel bool     `json:"nomodel,omitempty"` // behaviour outside the Coq model (implementation-side predicate only)
 	Obs     string   `json:"observed,omitempty"`
 }
@@ -176,6 +195,12 @@ func coqDef(d *Dflt) string {
 		return "(Some (DQuoted " + lib.CoqStr(d.S) + "))"
 	case "now":
 		return fmt.Sprintf("(Some (DNow %d))", d.P)
+	case "expr":
+		return "(Some (DExpr " + lib.CoqStr(d.S) + "))"
+	case "bit":
+		return "(Some (DBit " + lib.CoqStr(d.S) + "))"
+	case "hex":
+		return "(Some (DHex " + lib.CoqStr(d.S) + "))"
 	}
 	panic("dflt")
 }
@@ -185,8 +210,12 @@ func coqCol(c Col) string {
 	if c.OnUpd != nil {
 		ou = fmt.Sprintf("(Some %d)", *c.OnUpd)
 	}
-	return fmt.Sprintf("(mkcol %s %s %s %s %s %s %s)", lib.CoqStr(c.Name), coqType(c.Ty), lib.CoqBool(c.Null), lib.CoqBool(c.Auto),
-		coqDef(c.Def), ou, lib.CoqStr(c.Comment))
+	gen := "None"
+	if c.Gen != nil {
+		gen = "(Some " + lib.CoqTuple(lib.CoqStr(c.Gen.Expr), lib.CoqBool(c.Gen.Stored)) + ")"
+	}
+	return fmt.Sprintf("(mkcol %s %s %s %s %s %s %s %s)", lib.CoqStr(c.Name), coqType(c.Ty), lib.CoqBool(c.Null), lib.CoqBool(c.Auto),
+		gen, coqDef(c.Def), ou, lib.CoqStr(c.Comment))
 }
 
 func coqIdx(i Index) string {
@@ -211,8 +240,11 @@ func coqFK(f FK) string {
 }
 
 func coqTable(t *Table) string {
-	return fmt.Sprintf("(mktable %s %s %s %s %s %s %s %s)", lib.CoqStr(t.Name), lib.CoqListOf(t.Cols, coqCol),
-		lib.CoqListOf(t.PK, lib.CoqStr), lib.CoqListOf(t.Idx, coqIdx), lib.CoqListOf(t.FKs, coqFK),
+	cks := lib.CoqListOf(t.Checks, func(k Check) string {
+		return fmt.Sprintf("(mkchk %s %s %s)", lib.CoqStr(k.Name), lib.CoqStr(k.Expr), lib.CoqBool(k.Enforced))
+	})
+	return fmt.Sprintf("(mktable %s %s %s %s %s %s %s %s %s %s)", lib.CoqBool(t.Temp), lib.CoqStr(t.Name), lib.CoqListOf(t.Cols, coqCol),
+		lib.CoqListOf(t.PK, lib.CoqStr), lib.CoqListOf(t.Idx, coqIdx), lib.CoqListOf(t.FKs, coqFK), cks,
 		lib.CoqOpt(t.AutoInc != "", lib.CoqStr(t.AutoInc)), collCoq[t.Coll], lib.CoqStr(t.Comment))
 }
 
@@ -316,6 +348,14 @@ func sqlCreate(t *Table, r *lib.RNG) string {
 		} else if r.Chance(1, 4) {
 			s += " NULL"
 		}
+		if c.Gen != nil {
+			s += " GENERATED ALWAYS AS (" + c.Gen.SQL + ")"
+			if c.Gen.Stored {
+				s += " STORED"
+			} else if r.Bool() {
+				s += " VIRTUAL"
+			}
+		}
 		if c.Def != nil {
 			switch c.Def.Kind {
 			case "null":
@@ -391,6 +431,13 @@ func sqlCreate(t *Table, r *lib.RNG) string {
 			s += " ON DELETE " + f.OnDel
 		}
 		tail = append(tail, s)
+	}
+	for _, k := range t.Checks {
+		ck := "CONSTRAINT " + qid(k.Name) + " CHECK (" + k.SQL + ")"
+		if !k.Enforced {
+			ck += " NOT ENFORCED"
+		}
+		tail = append(tail, ck)
 	}
 	items = append(items, tail...)
 	s := "CREATE TABLE " + qid(t.Name) + " (\n  " + strings.Join(items, ",\n  ") + "\n)"
@@ -636,6 +683,44 @@ func genDefault(r *lib.RNG, c *Col, allowEnum bool) {
 	}
 }
 
+// intCols returns the plain (not generated) integer columns: operands of generated expressions, defaults and checks
+func intCols(t *Table) []Col {
+	var o []Col
+	for _, c := range t.Cols {
+		if c.Ty.Kind == "int" && c.Gen == nil {
+			o = append(o, c)
+		}
+	}
+	return o
+}
+
+// genArith returns (text as SHOW CREATE prints it, text as written in the statement)
+func genArith(r *lib.RNG, c Col) (string, string) {
+	op := lib.Pick(r, []string{"+", "-", "*"})
+	n := itoa(r.Range(1, 9))
+	return "(" + qid(c.Name) + " " + op + " " + n + ")", qid(c.Name) + op + n
+}
+
+func genCond(r *lib.RNG, cs []Col) (string, string) {
+	atom := func() (string, string) {
+		c := lib.Pick(r, cs)
+		if r.Chance(1, 5) {
+			lo, hi := itoa(r.Range(0, 5)), itoa(r.Range(6, 90))
+			return "(" + qid(c.Name) + " BETWEEN " + lo + " AND " + hi + ")", qid(c.Name) + " between " + lo + " and " + hi
+		}
+		op := lib.Pick(r, []string{"<", ">", "<=", ">=", "="})
+		n := itoa(r.Range(0, 200))
+		return "(" + qid(c.Name) + " " + op + " " + n + ")", qid(c.Name) + " " + op + " " + n
+	}
+	a, as := atom()
+	if r.Chance(1, 3) {
+		b, bs := atom()
+		op := lib.Pick(r, []string{"AND", "OR"})
+		return "(" + a + " " + op + " " + b + ")", "(" + as + ") " + strings.ToLower(op) + " (" + bs + ")"
+	}
+	return a, as
+}
+
 func genTable(r *lib.RNG, enumDefaults bool) (*Table, []string) {
 	nm := &namer{r: r, used: map[string]bool{"p": true}}
 	t := &Table{Coll: "utf8mb4_0900_bin"}
@@ -747,6 +832,64 @@ func genTable(r *lib.RNG, enumDefaults bool) (*Table, []string) {
 	for i := range t.Cols {
 		genDefault(r, &t.Cols[i], enumDefaults)
 	}
+	// expression / bit / binary defaults, generated columns, CHECK constraints
+	ints := intCols(t)
+	for i := range t.Cols {
+		c := &t.Cols[i]
+		if c.Auto || c.Def != nil || !r.Chance(1, 3) {
+			continue
+		}
+		switch c.Ty.Kind {
+		case "int":
+			if len(ints) > 0 && r.Chance(1, 3) {
+				if o := lib.Pick(r, ints); o.Name != c.Name {
+					e, sq := genArith(r, o)
+					c.Def = &Dflt{Kind: "expr", S: e, Raw: "(" + sq + ")"}
+				}
+			}
+		case "bit":
+			n := atoi(c.Ty.N)
+			if n > 20 {
+				n = 20
+			}
+			v := uint64(r.Intn(1 << uint(n)))
+			raw := fmt.Sprintf("b'%0*b'", r.Range(1, n), v)
+			if r.Bool() {
+				raw = fmt.Sprintf("%d", v)
+			}
+			c.Def = &Dflt{Kind: "bit", S: fmt.Sprintf("%b", v), Raw: raw}
+		case "binary", "varbinary":
+			n := atoi(c.Ty.N)
+			k := r.Range(1, 4)
+			if k > n {
+				k = n
+			}
+			b := make([]byte, k)
+			for j := range b {
+				b[j] = byte(r.Intn(256))
+			}
+			raw := fmt.Sprintf("0x%x", b)
+			if c.Ty.Kind == "binary" {
+				b = append(b, make([]byte, n-k)...) // BINARY(n) pads with zero bytes
+			}
+			c.Def = &Dflt{Kind: "hex", S: fmt.Sprintf("%X", b), Raw: raw}
+		}
+	}
+	if len(ints) > 0 && r.Chance(1, 6) {
+		e, sq := genArith(r, lib.Pick(r, ints))
+		g := Col{Name: cn.fresh("g"), Ty: Type{Kind: "int", Sub: lib.Pick(r, []string{"int", "bigint"})}, Null: true,
+			Gen: &Gen{Expr: e, SQL: sq, Stored: r.Chance(3, 4)}}
+		if r.Chance(1, 4) {
+			g.Comment = randText(r, 6)
+		}
+		t.Cols = append(t.Cols, g)
+	}
+	if len(ints) > 0 && r.Chance(1, 5) {
+		for k := r.Range(1, 2); k > 0; k-- {
+			e, sq := genCond(r, ints)
+			t.Checks = append(t.Checks, Check{Name: in.fresh("ck"), Expr: e, SQL: sq, Enforced: !r.Chance(1, 6)})
+		}
+	}
 	sort.Slice(t.Idx, func(a, b int) bool { return t.Idx[a].Name < t.Idx[b].Name })
 	sort.Slice(t.FKs, func(a, b int) bool { return t.FKs[a].Name < t.FKs[b].Name })
 	return t, setup
@@ -787,6 +930,9 @@ func genProbes(r *lib.RNG, t *Table) []string {
 	for k := 0; k < 4; k++ {
 		var cols, vals []string
 		for _, c := range t.Cols {
+			if c.Gen != nil {
+				continue
+			}
 			if k > 0 && r.Chance(1, 3) && !(c.Def != nil && c.Def.Kind == "now") {
 				continue // leave to the default (never for CURRENT_TIMESTAMP defaults: time-dependent, may collide on keys)
 			}
@@ -839,6 +985,8 @@ func runProbes(s *eng.S, cs *caseT, name string) []string {
 			"SELECT column_name, ordinal_position, column_default, is_nullable, column_type, character_set_name, collation_name, column_key, extra, column_comment FROM information_schema.columns WHERE table_schema = 'db' AND table_name = " + qstr(name) + " ORDER BY ordinal_position",
 			"SELECT table_collation, table_comment FROM information_schema.tables WHERE table_schema = 'db' AND table_name = " + qstr(name),
 			"SELECT index_name, seq_in_index, column_name, non_unique, sub_part, index_comment FROM information_schema.statistics WHERE table_schema = 'db' AND table_name = " + qstr(name) + " ORDER BY index_name, seq_in_index",
+			"SELECT constraint_name, constraint_type, enforced FROM information_schema.table_constraints WHERE table_schema = 'db' AND table_name = " + qstr(name) + " ORDER BY constraint_name, constraint_type",
+			"SELECT constraint_name, check_clause FROM information_schema.check_constraints WHERE constraint_schema = 'db' ORDER BY constraint_name",
 		} {
 			ri := s.Query(q)
 			if ri.Err != nil {
@@ -887,6 +1035,13 @@ func sigOf(cs *caseT, what string) string {
 		return cs.Tag + "/" + what
 	}
 	if cs.T != nil {
+		if len(cs.T.Checks) > 0 {
+			for _, c := range cs.T.Cols {
+				if c.Gen != nil && !c.Gen.Stored {
+					return "virtual-column-hides-check-constraints"
+				}
+			}
+		}
 		for _, ix := range cs.T.Idx {
 			if strings.ContainsAny(ix.Comment, "'\\") {
 				return "index-comment-quote-unescaped"
